@@ -7,6 +7,7 @@ import (
 	"errors"
 
 	"github.com/quic-go/quic-go"
+	"go.miragespace.co/specter/spec/protocol"
 )
 
 // VerifCachedConn describes one entry of the connection cache of a transport.
@@ -41,3 +42,16 @@ func (t *QUIC) VerifCached() []VerifCachedConn {
 
 // VerifQuicConfig is the package's quic configuration (needed to listen with the same settings).
 func VerifQuicConfig() *quic.Config { return quicConfig }
+
+// VerifCachedQuic returns the connection cached for the peer (nil if none): read-only accessor.
+func (t *QUIC) VerifCachedQuic(peer *protocol.Node) *quic.Conn {
+	c, ok := t.cachedConnections.Load(t.makeCachedKey(peer))
+	if !ok {
+		return nil
+	}
+	return c.quic
+}
+
+// VerifReapPeer runs reapPeer(q, peer), as reaper() does for a candidate it collected (accessor for the
+// unexported method; reaper() itself is driven by timers of tens of seconds).
+func (t *QUIC) VerifReapPeer(q *quic.Conn, peer *protocol.Node) { t.reapPeer(q, peer) }
